@@ -357,7 +357,8 @@ class PDFContentParser(PSStackParser[Union[PSKeyword, PDFStream]]):
                     raise PSTypeError(error_msg)
                 d = {literal_name(k): resolve1(v) for (k, v) in choplist(2, objs)}
                 eos = b"EI"
-                filter = d.get("F", None)
+                # the inline image dictionary may use the abbreviated or the full key
+                filter = d.get("F", d.get("Filter"))
                 if filter is not None:
                     if isinstance(filter, PSLiteral):
                         filter = [filter]
